@@ -9,6 +9,7 @@ HARNESSES = {
     'K-fname': dict(path='rolling::directory::verif_kani::k_fname', fn='k_fname', bounded=False, bound='all 2^192 24-byte names (byte 4 a char boundary); loops bounded by the constant width 24, unwinding assertions on'),
     'K-fname-len': dict(path='rolling::directory::verif_kani::k_fname_len', fn='k_fname_len', bounded=False, bound='all lengths 0..=32 except 24, all byte contents; loop-free'),
     'K-fname-rt': dict(path='rolling::file_number::verif_kani::k_fname_rt', fn='k_fname_rt', bounded=True, bound='file numbers d*10^k, d in 0..=9, k in 0..=19 (one symbolic decimal digit at any place value)'),
+    'E-gate': dict(kind='enum', path='rolling::directory::verif_enum::e_gate', fn='e_gate', bounded=True, bound='NATIVE EXHAUSTIVE ENUMERATION (cargo test, not symbolic): trackers of 1..=5 files (consecutive or gapped numbers), every subset pinned by a live clone: 124 cases'),
     'K-handles': dict(path='rolling::file_number::verif_kani::k_handles', fn='k_handles', bounded=True, bound='fixed shape: 3 appends over 2 files, truncate position symbolic in 0..=3'),
     'K-hdr': dict(path='frame::header::verif_kani::k_hdr_roundtrip', fn='k_hdr_roundtrip', bounded=False, bound='all 2^56 7-byte headers; loop-free'),
     'K-le': dict(path='frame::header::verif_kani::k_le', fn='k_le', bounded=False, bound='all u16/u32/u64 values; loops bounded by the byte width'),
@@ -37,7 +38,7 @@ TIMEOUT_S = int(os.environ.get('VERIF_KANI_TIMEOUT', '900'))
 def prepare_scratch(repo, verif):
     scratch = tempfile.mkdtemp(prefix='verif_kani_', dir=os.environ.get('VERIF_SCRATCH', '/tmp'))
     subprocess.run(['rsync', '-a', '--exclude', 'target', '--exclude', '.git', repo.rstrip('/') + '/', scratch + '/'], check=True)
-    for hf in sorted(glob.glob(os.path.join(verif, 'kani', '*.rs'))):
+    for hf in sorted(glob.glob(os.path.join(verif, 'kani', '*.rs')) + glob.glob(os.path.join(verif, 'enum', '*.rs'))):
         text = open(hf).read()
         m = re.search(r'@append-to\s+(\S+)', text)
         if not m:
@@ -65,6 +66,32 @@ def run_harnesses(repo, verif, names):
     try:
         for n in names:
             h = HARNESSES[n]
+            if h.get('kind') == 'enum':
+                # bounded stand-in by exhaustive enumeration, executed natively against the real code
+                cmd = ['cargo', 'test', '--offline', '--lib', h['path'], '--', '--exact']
+                env2 = dict(env); env2['CARGO_TARGET_DIR'] = os.path.join(verif, 'build', 'enum-target')
+                t0 = time.time()
+                out, timed_out, oom = run_guarded(cmd, scratch, env2, TIMEOUT_S)
+                dt = time.time() - t0
+                rec = dict(name=n, harness=h['fn'], bounded=True, bound=h['bound'], seconds=round(dt, 1), cmd=' '.join(cmd), backend='native enumeration (cargo test)')
+                m = re.search(r'test result: (\w+)\. (\d+) passed; (\d+) failed', out)
+                if oom or timed_out or not m:
+                    rec['status'] = 'TIMEOUT' if timed_out else 'TOOL'
+                    rec['output_tail'] = out[-1500:]
+                elif int(m.group(2)) == 1 and int(m.group(3)) == 0:
+                    rec['status'] = 'SUCCESS'
+                elif int(m.group(3)) >= 1:
+                    rec['status'] = 'FAILURE'
+                    pm = re.search(r"panicked at [^\n]*\n(?:[^\n]*\n){0,6}", out)
+                    rec['failed_checks'] = (pm.group(0) if pm else '')[:600]
+                    rec['output_tail'] = out[-3000:]
+                    rec['concrete'] = 'failing case reported by the enumeration itself (it runs the real code): ' + rec['failed_checks']
+                    rec['replayed'] = dict(cmd=' '.join(cmd) + '   (in a copy of /repo with /verif/enum/*.rs appended)', panic=rec['failed_checks'], result=m.group(0))
+                else:
+                    rec['status'] = 'TOOL'
+                    rec['output_tail'] = 'harness not found / not run: ' + out[-800:]
+                results.append(rec)
+                continue
             cmd = ['cargo', 'kani', '-Z', 'function-contracts', '--exact', '--harness', h['path']]
             t0 = time.time()
             out, timed_out, oom = run_guarded(cmd, scratch, env, TIMEOUT_S)
@@ -220,11 +247,12 @@ def write_replay(verif, prop, k):
     d = os.path.join(verif, 'replays')
     os.makedirs(d, exist_ok=True)
     p = os.path.join(d, '%s-%s.json' % (prop, k['name']))
-    rec = dict(property=prop, obligation=k['name'], harness=k['harness'], verifier='kani', verifier_cmd=k['cmd'],
+    rec = dict(property=prop, obligation=k['name'], harness=k['harness'], verifier=('native enumeration (cargo test)' if k.get('backend') else 'kani'), verifier_cmd=k['cmd'],
                failed_checks=k.get('failed_checks'), verifier_output=k.get('output_tail'), counterexample=k.get('concrete'),
                counterexample_bytes=k.get('concrete_bytes'), counterexample_ascii=k.get('concrete_ascii'),
                replayed_against_real_code=k.get('replayed'),
-               note='concrete playback test below reproduces the failure against the real code (cargo kani --concrete-playback=print)'
+               note=('the enumeration runs the real code: the failing case is in failed_checks' if k.get('backend') else
+                     'concrete playback test below reproduces the failure against the real code (cargo kani --concrete-playback=print)')
                     if k.get('concrete') else 'no-failing-input-found')
     with open(p, 'w') as f:
         json.dump(rec, f, indent=1)
